@@ -2,11 +2,12 @@ import Mimium.Model.Occurs
 /-!
 # Every place of the type checker that writes a `parent` pointer, as steps on the store of `Model/Occurs.lean` (C04)
 
-`TypeVar::parent` is written in exactly five places of `/repo/crates/lib/mimium-lang/src` (grep `parent = Some`):
+`TypeVar::parent` is assigned by 13 statements of /repo/crates (grep `parent = Some(`, test modules aside; the translator
+re-counts them on every run: `Gen/ParentWriters.lean`, pinned by `C04_parent_writers_pinned`), which make five writers:
 
 * the three variable arms of `typing/unification.rs::unify_types` and the same three arms of `unify_types_args`
   (they differ only in which `bound` field and which `level` they update, which the occurs check never reads):
-  `(Intermediate, Intermediate)`, `(Intermediate, _)`, `(_, Intermediate)`;
+  `(Intermediate, Intermediate)` (four assignments, see below), `(Intermediate, _)`, `(_, Intermediate)`;
 * `typing.rs::InferContext::extend_record_with_field`, which REPLACES the parent `Record(fields)` of a bound variable by
   `Record(fields ++ [field : ?fresh])` without calling `unify_types` (and hence without an occurs check).
 
